@@ -49,10 +49,28 @@ MANIFEST = dict(
          'bind_agrees_old_code_witness: with the *args/**kwargs names in param_dict (the source before the repair, '
          '`def f(**kw)` / `f(kw=A)`) the statement is false; bind_best_effort, bindJ_total, '
          'bind_without_push_back_loses_keyword, bind_source_is_modelled. '
-         'Tie: the real function = bindJ and CPython = bindPy, both exact, on all small signatures x calls.',
+         'Tie: the real function = bindJ and CPython = bindPy, both exact, on all small signatures x calls. '
+         'Loop unrolling (Model/FlowCache): unrolled_loop_sound - for every body of an unrolled generator for loop '
+         '(assignments from the loop variable / earlier locals / constants, nested in any if/for statements), every '
+         'yielded local, every sequence of values and every initial cache, the per-node cache decision of '
+         'infer_node/_infer_node_if_inferred (transcribed, instantiated with the facts the translator reads from '
+         'syntax_tree.py and function.py:get_yield_lazy_values) never serves a result of an earlier iteration: the '
+         'inferred values are the yielded values, element by element; unrolled_loop_mention_rule_witness / '
+         'unrolled_loop_direct_cache_witness: weakening either bypass rule loses the second value (kernel-checked); '
+         'flow_source_is_modelled. '
+         'Stream flow (direct oracle, no model): random terminating programs with for loops, generator functions with '
+         'yields behind nested for/if/with/try blocks and intermediate locals, closures, lambdas, comprehensions, '
+         'containers, decorators, property/staticmethod/classmethod, __getitem__/__call__/__iter__/__enter__/__add__, '
+         'augmented assignment, isinstance - executed with every probe recording the set of run-time classes, then '
+         'Script.infer at every reached probe: every run-time class is reported; exactly that class where one '
+         'creation site reaches the probe through straight code.',
     note='Modelled not verified: only the PyCore fragment is under the theorem (no loops, attribute writes outside __init__, '
          'generators, decorators, containers other than tuples, multi-module). The pretty-printer of the harness '
-         'and the name<->index mapping are trusted. Outside the fragment: nothing is claimed.',
+         'and the name<->index mapping are trusted. Outside the fragment: nothing is claimed by a theorem; the stream '
+         'flow judges loops / generators / closures / descriptors by the direct oracle only (CPython is the ground '
+         'truth; probes on which jedi hits a documented give-up limit or raises are counted, not judged). '
+         'Model/FlowCache covers the cache decision under predefined names for straight assignment chains, not '
+         'the inference of the right-hand sides themselves.',
     technique='Lean 4 proof (abstract interpretation soundness by simulation) + three-way differential correspondence',
     design='5.C02')
 
